@@ -823,7 +823,7 @@ static Node *compute_vla_size(Type *ty, Token *tok) {
   if (ty->base->kind == TY_VLA)
     base_sz = new_var_node(ty->base->vla_size, tok);
   else
-    base_sz = new_num(ty->base->size, tok);
+    base_sz = new_ulong(ty->base->size, tok);
 
   ty->vla_size = new_lvar("", ty_ulong);
   Node *expr = new_binary(ND_ASSIGN, new_var_node(ty->vla_size, tok),
